@@ -447,11 +447,15 @@ func runC01(ctx *core.Ctx) {
 	}
 
 	// (4) register machine, multiplication family
+	// the reduced machine chains calls (a call with more terms followed by one
+	// with fewer, a used receiver feeding the next call) inside one replayable history
 	if ctx.Quick() {
 		c01Full1.BFS(ctx, 1, 2_000_000)
+		c01Reduced.BFS(ctx, 2, 2_000_000)
 	} else {
 		c01Full1.BFS(ctx, 1, 2_000_000)
 		c01Full.BFS(ctx, 2, 6_000_000)
+		c01Reduced.BFS(ctx, 3, 8_000_000)
 	}
 	pmReportReached(ctx)
 }
